@@ -1,4 +1,5 @@
 import Octo.Lemmas.SqlOps
+import Octo.Lemmas.SqlTree
 import Octo.Spec.GroupSem
 /-!
   Lemmas about the hash map of `SimpleGroupBy` (`Octo.Grp.gUpd` / `gFold`): after any input,
@@ -296,5 +297,71 @@ theorem evalArgs_length (r : Row) (aggs : List PAgg) (ins : Row) (h : evalArgs r
         simp only [h1, h2, Option.some.injEq] at h
         subst h
         simp [ih vs h2]
+
+/-! ### outcomes -/
+
+theorem Res.bind_ok {α β : Type} {r : Res α} {f : α → Res β} {b : β} (h : r.bind f = .ok b) :
+    ∃ a, r = .ok a ∧ f a = .ok b := by
+  cases r with
+  | ok a => exact ⟨a, rfl, h⟩
+  | err => simp [Res.bind] at h
+  | panic => simp [Res.bind] at h
+
+theorem Res.ofOption_ok {α : Type} {o : Option α} {a : α} (h : Res.ofOption o = .ok a) : o = some a := by
+  cases o with
+  | none => simp [Res.ofOption] at h
+  | some x => simp only [Res.ofOption, Res.ok.injEq] at h; rw [h]
+
+theorem evalsOk_of_gFold (keys : List SExpr) (aggs : List PAgg) (rows : List Row) (st items : List GItem)
+    (h : gFold keys aggs st rows = some items) : evalsOk keys aggs rows = true := by
+  induction rows generalizing st with
+  | nil => rfl
+  | cons r rs ih =>
+    simp only [gFold] at h
+    cases h1 : evalAll r keys with
+    | none => simp [h1] at h
+    | some k =>
+      cases h2 : evalArgs r aggs with
+      | none => simp [h1, h2] at h
+      | some ins =>
+        simp only [h1, h2] at h
+        have := ih _ h
+        simp only [evalsOk, List.all_cons, h1, h2, Option.isSome_some, Bool.and_self, Bool.true_and] at this ⊢
+        exact this
+
+theorem evalsOk_of_groupNode {keys : List SExpr} {aggs : List PAgg} {rows out : List Row}
+    (h : groupNode keys aggs rows = .ok out) : evalsOk keys aggs rows = true := by
+  simp only [groupNode] at h
+  cases hg : gFold keys aggs [] rows with
+  | none => simp [hg] at h
+  | some items => exact evalsOk_of_gFold keys aggs rows [] items hg
+
+theorem whereStep_spec {w : Option SExpr} {rows out : List Row} (h : whereStep w rows = some out) :
+    out = specFilter w rows := by
+  cases w with
+  | none => simp [whereStep] at h; simp [specFilter, h]
+  | some p => simp only [whereStep] at h; exact filterOp_spec p rows out h
+
+theorem typecheckGroup_some {tys : List Ty} {src : Query} {g : GroupBlock} {aggs : List PAgg}
+    (h : typecheckGroup tys src g = some aggs) :
+    ∃ cols, queryTys tys src = some cols ∧ typecheckAggs cols g.aggs = some aggs := by
+  simp only [typecheckGroup] at h
+  cases hq : queryTys tys src with
+  | none => simp [hq] at h
+  | some cols => exact ⟨cols, rfl, by simpa [hq] using h⟩
+
+/-- every key tuple has its class representative among `keyClasses` -/
+theorem keyClasses_covers (ks : List Row) (k : Row) (h : k ∈ ks) : ∃ c ∈ keyClasses ks, rowEq k c = true := by
+  induction ks with
+  | nil => simp at h
+  | cons x xs ih =>
+    simp only [keyClasses]
+    rcases List.mem_cons.mp h with h | h
+    · subst h; exact ⟨k, List.mem_cons_self, rowEq_refl k⟩
+    · obtain ⟨c, hc, hkc⟩ := ih h
+      by_cases hx : rowEq c x = true
+      · exact ⟨x, List.mem_cons_self, rowEq_trans hkc hx⟩
+      · refine ⟨c, List.mem_cons_of_mem _ (List.mem_filter.mpr ⟨hc, ?_⟩), hkc⟩
+        simpa using hx
 
 end Octo.Grp
